@@ -194,9 +194,19 @@ class H2Protocol:
         except (h2.exceptions.StreamClosedError, KeyError, h2.exceptions.ProtocolError):
             # Stream or connection has closed whilst waiting to send
             # data, not a problem - just force close it.
-            await self.stream_buffers[stream_id].close()
-            del self.stream_buffers[stream_id]
-            self.priority.remove_stream(stream_id)
+            buffer = self.stream_buffers.pop(stream_id, None)
+            if buffer is not None:
+                await buffer.close()
+            try:
+                self.priority.remove_stream(stream_id)
+            except priority.MissingStreamError:
+                # The tree still schedules a stream it has already
+                # removed (seen after removing the parent of an
+                # exclusive dependency), start again with the
+                # streams that have something to send.
+                self.priority = priority.PriorityTree()
+                for live_stream_id in self.stream_buffers:
+                    self.priority.insert_stream(live_stream_id)
 
     async def handle(self, event: Event) -> None:
         if isinstance(event, RawData):
